@@ -321,10 +321,28 @@ def main():
         coverage["rule"] = bounded.get("rule", "")
         if level != "proof":
             coverage["samples"] = (bounded.get("samples") or [])[:5] + coverage["samples"][:3]
+    # every assumed (unchecked) contract the encoding rests on: the registries of the domains
+    # and of the contract modules used by this property's proof jobs
+    assumed_contracts = []
+    if specs:
+        try:
+            import importlib
+            from pyvc import unyt_domain as _UD, np_domain as _ND, handlers as _HD   # noqa: F401
+            for _m in sorted({m for m, _ in specs} | {m for m, _ in plan.lemmas}):
+                importlib.import_module(_m)
+            assumed_contracts = ["assumed[%s]: %s" % kv for kv in sorted(_UD.ASSUMED.items())]
+            used = set()
+            for rep in proof_reports:
+                used.update(rep.get("abstract_contracts_crossed") or [])
+            assumed_contracts += ["trusted contract crossed (not verified against its body): %s" % u for u in sorted(used)]
+            assumed_contracts.append("assumed NumPy / stdlib call models (one line each in pyvc/np_domain.py ASSUMED_NP): "
+                                     + ", ".join(sorted(_ND.ASSUMED_NP)))
+        except Exception as _e:
+            assumed_contracts = ["(assumption registry could not be read: %r)" % (_e,)]
     ev = {
         "property_id": pid, "tier": tier, "seed": seed, "level": level,
         "coverage": coverage,
-        "assumptions": sorted(trusted) + list(plan.assumptions),
+        "assumptions": sorted(trusted) + list(plan.assumptions) + assumed_contracts,
         "wall_s": round(wall, 2), "violations": len(violations),
     }
     os.makedirs(args.evidence_dir, exist_ok=True)
